@@ -17,3 +17,4 @@ INVARIANT CodecStable
 INVARIANT MalformedRejected
 INVARIANT WireStable
 INVARIANT DevReport
+INVARIANT InfoReport
